@@ -42,8 +42,14 @@ def run_oracle(run, prop, items, oracle, ctx, budget_s=None, max_new=3):
     kn = load_known(prop)
     seen_known, new, n, nontrivial = {}, [], 0, set()
     t0 = time.time()
+    searching = bool(run.failed_obligations())      # an obligation is broken: we only need ONE concrete failing input
+    if searching and budget_s is None:
+        budget_s = 240
     for it in items:
         if budget_s and time.time() - t0 > budget_s:
+            run.cov["oracle_stopped_on_budget_s"] = budget_s
+            break
+        if searching and new:
             break
         try:
             with warnings.catch_warnings():
